@@ -27,6 +27,23 @@ def _find_method(tree, cls, name, path):
     return pg.find_def(tree, "%s.%s" % (cls, name), path)
 
 
+def _own_depth(v):
+    """depth of the element bound by a map / filter value: the smallest bound depth its body mentions that its iterable does not"""
+    body = v[1] if v[0] == "map" else v[2]
+    it = v[2] if v[0] == "map" else v[3]
+    inner = {u[1] for u in X.find_nodes(("x", it), lambda u: u[0] == "bv")}
+    mine = sorted({u[1] for u in X.find_nodes(("x", body) if v[0] == "map" else ("x", body, v[1]), lambda u: u[0] == "bv")} - inner)
+    return mine[-1] if mine else 0
+
+
+def _inner_depth(v):
+    return _own_depth(v)
+
+
+def _subst1(body, depth, repl):
+    return X._subst_value(body, {("bv", depth): repl})
+
+
 def generate(ctx):
     out = ""
     path = ctx.src("direct/data/h5_data.py")
@@ -131,52 +148,75 @@ def generate(ctx):
     for kind in ("pre", "post"):
         out += "Definition w_%s_cond %s : bool := %s.\nDefinition w_%s_len %s : Z := %s.\n" % (kind, sig, one(kind + "_cond"), kind, sig, one(kind + "_len"))
 
-    # ---------------- parse_filenames_data: range bookkeeping ----------------
-    fn = _find_method(tree, "H5SliceData", "parse_filenames_data", path)
-    body = pg.strip_doc(fn.body)
-    if ast.unparse(body[0]) != "current_slice_number = 0":
-        raise Untranslatable("parse_filenames_data: expected current_slice_number = 0", body[0].lineno, path)
-    loop = body[1]
-    if not (isinstance(loop, ast.For) and ast.unparse(loop.target) == "(idx, filename)" and ast.unparse(loop.iter) == "enumerate(filenames)" and len(body) == 2):
-        raise Untranslatable("parse_filenames_data: loop header outside subset", loop.lineno, path)
-    stmts = [s for s in loop.body if not (isinstance(s, ast.If) and "self.logger.info" in ast.unparse(s)) and not isinstance(s, ast.Try)]
-    want = [
-        "num_slices = kspace_shape[0]",
-        None,
-        "self.volume_indices[filename] = range(current_slice_number, current_slice_number + num_slices)",
-        "current_slice_number += num_slices",
-    ]
-    if len(stmts) != 4 or ast.unparse(stmts[0]) != want[0]:
-        raise Untranslatable("parse_filenames_data: loop body outside subset", loop.lineno, path)
-    br = stmts[1]
-    nofilter = "self.data += [(filename, _) for _ in range(num_slices)]"
-    flt = [
-        "admissible_indices = range(*filter_slice.indices(num_slices))",
-        "self.data += [(filename, _) for _ in range(num_slices) if _ in admissible_indices]",
-        "num_slices = len(admissible_indices)",
-    ]
-    ok = (
-        isinstance(br, ast.If)
-        and ast.unparse(br.test) == "not filter_slice"
-        and [ast.unparse(x) for x in br.body] == [nofilter]
-        and len(br.orelse) == 1
-        and isinstance(br.orelse[0], ast.If)
-        and ast.unparse(br.orelse[0].test) == "isinstance(filter_slice, slice)"
-        and [ast.unparse(x) for x in br.orelse[0].body] == flt
-        and len(br.orelse[0].orelse) == 1
-        and isinstance(br.orelse[0].orelse[0], ast.Raise)
-    )
-    if not ok:
-        raise Untranslatable("parse_filenames_data: filter branches outside subset", br.lineno, path)
-    tr = pg.ExprT({"current_slice_number": "cur", "num_slices": "k"}, path, truthy_int=False)
-    rng = stmts[2].value
-    if not (isinstance(rng, ast.Call) and ast.unparse(rng.func) == "range" and len(rng.args) == 2 and ast.unparse(stmts[2].targets[0]) == "self.volume_indices[filename]"):
-        raise Untranslatable("parse_filenames_data: volume_indices assignment outside subset", stmts[2].lineno, path)
-    out += "Definition p_lo (cur k : Z) : Z := %s.\nDefinition p_hi (cur k : Z) : Z := %s.\n" % (tr.z(rng.args[0]), tr.z(rng.args[1]))
-    aug = stmts[3]
-    if not (isinstance(aug, ast.AugAssign) and isinstance(aug.op, ast.Add) and ast.unparse(aug.target) == "current_slice_number"):
-        raise Untranslatable("parse_filenames_data: expected current_slice_number += ...", aug.lineno, path)
-    out += "Definition p_next (cur k : Z) : Z := (cur + %s).\n" % tr.z(aug.value)
+    # ---------------- parse_filenames_data: range bookkeeping, from one generic iteration of its loop ----------------
+    hits, stopped = X.watch_calls(tree, path, "H5SliceData.parse_filenames_data", [], opaque={"verify_extra_h5_integrity"})
+    loops = hits["$loops"]
+    if len(loops) != 1 or loops[0].get("tree") is None or loops[0]["iter"] != S("filenames"):
+        raise Untranslatable("parse_filenames_data: not one loop over (enumerate of) filenames (%s)" % stopped, None, path)
+    L = loops[0]
+    d = L["depth"]
+    fname = ("bv", d)
+    nsl = X.parse_expr("h5py.File(F, 'r')['kspace'].shape[0]", {"F": fname})
+    adm = X.parse_expr("range(*filter_slice.indices(N))", {"N": nsl})
+    curs = [n for n in L["assigned"] if L["before"].get(n) == X.const(0)]
+    store = lambda c: c[0] == "call" and c[1] == S("$store")
+    tr = X.drop_do(L["tree"], keep=store)
+    forms = set()
+    seen_kinds = set()
+    ends = {tuple(c): e for kind, c, e in L["paths"] if kind == "end"}
+    for conds, lf in X.leaves(tr):
+        if lf[0] == "raise":
+            continue
+        if lf[0] != "ret":
+            raise Untranslatable("parse_filenames_data: an iteration ends otherwise than by falling through", None, path)
+        effs = [c[1] for c in conds if c[0] == "do"]
+        tests = tuple(c for c in conds if c[0] != "do")
+        env = ends.get(tests)
+        if env is None or len(effs) != 2:
+            raise Untranslatable("parse_filenames_data: an iteration does not make exactly two stores (data, volume_indices)", None, path)
+        (t1, op1, data), (t2, op2, rng) = effs[0][2], effs[1][2]
+        if t1 != ("attr", me, "data") or op1 != X.const("+=") or t2 != ("sub", ("attr", me, "volume_indices"), fname) or op2 != X.const("="):
+            raise Untranslatable("parse_filenames_data: the stores are not `self.data += ..` then `self.volume_indices[filename] = ..`", None, path)
+        # what is appended: (filename, i) for the admissible i of range(n), in order
+        base = data
+        if base[0] == "map" and base[2][0] == "filter" and base[2][2] == ("bv", _inner_depth(base[2])):
+            inner = base[2]
+            base = ("filter", inner[1], _subst1(base[1], _own_depth(base), inner[2]), inner[3])
+        elif base[0] == "map" and base[2][0] == "map" and base[2][1] == ("bv", _inner_depth(base[2])):
+            base = ("map", base[1], base[2][2])
+        filtered = [pol for c, pol in tests if c == S("filter_slice")]
+        src = base[3] if base[0] == "filter" else base[2] if base[0] == "map" else None
+        if src != ("call", S("range"), (nsl,), ()):
+            raise Untranslatable("parse_filenames_data: what is appended does not run over range(number of slices of the file): %s" % X.show(data)[:140], None, path)
+        elt_depth = _own_depth(base)
+        body = base[2] if base[0] == "filter" else base[1]
+        if body != ("tuple", (fname, ("bv", elt_depth))):
+            raise Untranslatable("parse_filenames_data: the entries appended are not (filename, slice number)", None, path)
+        if base[0] == "filter":
+            if base[1] != ("cmp", "in", ("bv", elt_depth), adm):
+                raise Untranslatable("parse_filenames_data: the slice filter is not `i in range(*filter_slice.indices(n))`", None, path)
+            counts = {("call", S("len"), (adm,), ())}
+            seen_kinds.add("filtered")
+        else:
+            counts = {nsl, ("call", S("len"), (("call", S("range"), (nsl,), ()),), ())}
+            seen_kinds.add("all")
+        kept = data[2] if data[0] == "map" else None
+        if kept is not None:
+            counts.add(("call", S("len"), (kept,), ()))
+        counts.add(("call", S("len"), (data,), ()))
+        if len(curs) != 1:
+            raise Untranslatable("parse_filenames_data: not one running position starting at 0", None, path)
+        H = ("havoc", curs[0], d)
+        leaf = lambda u: "cur" if u == H else "k" if u in counts else None
+        em = X.Emit(leaf, path)
+        if not (rng[0] == "call" and rng[1] == S("range") and len(rng[2]) == 2 and not rng[3]):
+            raise Untranslatable("parse_filenames_data: volume_indices entry is not a range(lo, hi)", None, path)
+        forms.add((em.z(rng[2][0]), em.z(rng[2][1]), em.z(env[curs[0]])))
+    if seen_kinds != {"all", "filtered"} or len(forms) != 1:
+        raise Untranslatable("parse_filenames_data: range bookkeeping differs between the filtered and the unfiltered branch: %s" % sorted(forms), None, path)
+    lo_e, hi_e, next_e = forms.pop()
+    out += "Definition p_lo (cur k : Z) : Z := %s.\nDefinition p_hi (cur k : Z) : Z := %s.\n" % (lo_e, hi_e)
+    out += "Definition p_next (cur k : Z) : Z := %s.\n" % next_e
 
     # ---------------- ConcatDataset ----------------
     path2 = ctx.src("direct/data/datasets.py")
